@@ -475,6 +475,13 @@ func (s *c13Sys) apply(op int) (bool, error) {
 			return true, ve.Violationf("C13:block-rejected", "block %d (%s) was not accepted: %v (history=[%s])", cur, c13ActionName[act], err, s.histString())
 		}
 		s.ref.addBlock(delta)
+		s.statsMu.Lock()
+		if delta.Accts.Len() == 0 {
+			s.stats["blocks_with_empty_account_delta"]++ // never: StartEvaluator always Puts the rewards pool
+		} else if act == c13Empty {
+			s.stats["empty_blocks_with_pool_only_delta"]++
+		}
+		s.statsMu.Unlock()
 		s.hist = append(s.hist, byte(act))
 		where = fmt.Sprintf("after block %d (%s)", cur, c13ActionName[act])
 	case op == na:
